@@ -45,7 +45,14 @@ TEXT_ALPHA = [chr(c) for c in list(range(0x20, 0x7f)) + list(range(0xa0, 0x100))
 TEXT_CTRL = [chr(c) for c in (10, 11, 12, 0x1c, 0x1d, 0x1e, 0x85, 9, 0, 0x7f)]
 
 
+SPECIAL_TEXTS = ['""', "''", "null", "None", "NULL", "-", "0", "nan", "{}", "[]", "[1, 2]", "false", " "]
+
+
 def rand_text(r, maxlen=None):
+    if r.random() < 0.04:
+        t = r.choice(SPECIAL_TEXTS)        # text that a program might mistake for "no value" or for structure
+        if maxlen is None or len(t) <= maxlen:
+            return t
     n = r.choice([1, 1, 2, 3, 6, 12])
     if maxlen is not None:
         n = min(n, maxlen) if maxlen > 0 else 0
